@@ -150,7 +150,7 @@ fn c03_eq_determinacy() {
 
 // ------------------------------------------------------------------------------------------ check / pin
 
-// @ob id=O3.1 props=C03,C06 also=C18,C07 tier=quick kind=proof gen=king qsel=8 unwind=30 weight=light stubs=geom fn="Board::update_pin_info" desc="for the fixed king square and EVERY placement satisfying the occupancy invariant: afterwards checkers = exactly the enemy men attacking the king and pinned = exactly the lone men between the king and an aligned enemy slider (eight ray walks from the king, first and second blocker), nothing else changes; table accessors replaced by the closed forms that O16.1/3/4/5 prove equal to them on the real tables; loop unwinding assertion on (complete for the case)"
+// @ob id=O3.1 props=C03,C06 also=C18,C07 tier=quick kind=proof gen=king qsel=4 unwind=30 weight=light stubs=geom fn="Board::update_pin_info" desc="for the fixed king square and EVERY placement satisfying the occupancy invariant: afterwards checkers = exactly the enemy men attacking the king and pinned = exactly the lone men between the king and an aligned enemy slider (eight ray walks from the king, first and second blocker), nothing else changes; table accessors replaced by the closed forms that O16.1/3/4/5 prove equal to them on the real tables; loop unwinding assertion on (complete for the case)"
 fn c03_update_pin_info(kc: usize, ksq: u8) {
     let mut b = any_board_king(kc, ksq);
     kani::assume(b.side_to_move.to_index() == kc);
